@@ -14,7 +14,9 @@ Pp == E2!ScalarMul(Pi, G2Gen)
 DigitsOf(y) == <<ModN(y, XAbs), ModN(Div(y, XAbs), XAbs), ModN(Div(y, Mul(XAbs, XAbs)), XAbs), Div(y, Mul(XAbs, Mul(XAbs, XAbs)))>>
 ToSeq(f) == [i \in 1..Len(f) |-> f[i]]
 Stream(t) == LET d == DigitsOf(t) IN ToSeq(Pad(d[1], 8)) \o ToSeq(Pad(d[2], 8)) \o ToSeq(Pad(d[3], 8)) \o ToSeq(Pad(d[4], 8))
-Masters == IF Tier = "quick" THEN { One, Sub(Pow2(256), One), RndR(2) } ELSE { One, Sub(RMod, One), RMod, Add(RMod, One), Sub(Pow2(256), One), RndR(2) }
+\* incl. master scalars whose top words are zero (a set bit just above a word boundary: 2^130 + 7 lies in [2^128, 2^192))
+Masters == IF Tier = "quick" THEN { One, Sub(Pow2(256), One), RndR(2), Add(Pow2(130), FromNat(7)) }
+           ELSE { One, Sub(RMod, One), RMod, Add(RMod, One), Sub(Pow2(256), One), RndR(2), Add(Pow2(64), FromNat(5)), Add(Pow2(130), FromNat(7)), Add(Pow2(192), FromNat(5)), Sub(Pow2(192), One) }
 Hashes == IF Tier = "quick" THEN { Zero, Sub(Pow2(384), One), Rnd(3) } ELSE { Zero, One, Sub(QMod, One), QMod, Sub(Pow2(384), One), Pow2(381), Rnd(3), Rnd(4), FromNat(5) }
 Lens == IF Tier = "quick" THEN {0, 32} ELSE {0, 1, 32, 1000}
 Rhos == IF Tier = "quick" THEN { RndR(5) } ELSE { One, Sub(RMod, One), RndR(5) }
